@@ -123,6 +123,35 @@ def units(w):
         return Unit(f"{file}::main", lambda it: ([], {}, {}), None, name=f"{file}::main[module path wiring]", body=body, canary=False)
     U.append(host_unit("run.py"))
     U.append(host_unit("repl.py"))
+    # the stack of modules being loaded is one per interpreter and stays in place while a script runs - also a script started from
+    # module code through run(): a require inside it sees which modules are still loading (cycles are reported, not re-entered)
+    from .common import Stubs as _Stubs, real_env as _real_env
+    S_ = _Stubs(w)
+
+    def s_interp_stack(it):
+        stack = PList(["Outer", "Inner"])
+        stack.fresh = False
+        base = _real_env(w, it, {"checkerlang_secure_mode": V.FALSE})
+        base.fields["modulestack"] = stack
+        session = _real_env(w, it, {}, parent=base)
+        seen = it.ghost["seen_stack"] = []
+
+        def outcome(it_, env):
+            cur = base.fields.get("modulestack")
+            seen.append(cur is stack and cur.items == ["Outer", "Inner"])
+            return V.NULL
+        it.ghost["script"] = S_.node("script", outcome)
+        o = Obj(w.import_module("ckl.interpreter").ns["Interpreter"], {"environment": session, "base_environment": base})
+        o.fresh = False
+        return [o, SStr(z3.String("script")), SStr(z3.String("filename"))], {}, {"base": base, "stack": stack}
+
+    def p_interp_stack(it, c, o):
+        it.check("post:the-script-is-evaluated-once", len(it.ghost["seen_stack"]) == 1)
+        it.check("post:while-it-runs-the-interpreter's-load-stack-is-in-place-with-the-modules-still-loading", all(it.ghost["seen_stack"]))
+        cur = c["base"].fields.get("modulestack")
+        it.check("post:and-afterwards-too", cur is c["stack"] and cur.items == ["Outer", "Inner"])
+    U.append(Unit("interpreter.py::Interpreter.interpret", s_interp_stack, p_interp_stack, name="interpreter.py::Interpreter.interpret[module load stack stays in place]",
+                  abstractions={"parse_script": lambda it, a, k, n: it.ghost["script"]}, replay=replay_graphs))
     return U
 
 
